@@ -3,6 +3,7 @@
 //! the janitor, the notifier and loader threads are all simulated threads; time is the virtual
 //! clock.
 
+pub mod hist;
 pub mod oracle;
 pub mod policy_seq;
 
@@ -88,7 +89,11 @@ pub enum COp {
   MultiInsert { items: Vec<(u8, u64)> },
   MultiRemove { ks: Vec<u8> },
   Iter { batch: u8 },
+  /// sync iteration that advances the virtual clock by `ns` after `after` items
+  IterStep { batch: u8, after: u8, ns: u64 },
   IterSnapshot,
+  /// to_snapshot(), read back through its serialised form
+  Snapshot,
   RunMaintenance,
   Metrics,
   /// advance the virtual clock (only meaningful when the run keeps time by hand)
@@ -141,6 +146,8 @@ pub enum Res {
   Many(Vec<(u8, u32, u32)>),
   Unit,
   Metrics { current_cost: u64 },
+  /// snapshot entries: (key, id, ctr, cost, remaining ttl in ns)
+  Snap(Vec<(u8, u32, u32, u64, Option<u64>)>),
 }
 
 #[derive(Clone, Debug)]
@@ -198,6 +205,11 @@ pub struct Final {
   pub maintenance_passes: u32,
   pub settled: bool,
   pub now_ns: u64,
+  /// Drain audit, run after everything above was observed: every key of the universe is
+  /// removed; (key, id of the removed value if any, current_cost before, current_cost after).
+  pub audit: Vec<(u8, Option<u32>, u64, u64)>,
+  /// what iteration still shows after the drain (a background load may land late)
+  pub audit_left: Vec<(u8, u32, u32, u64)>,
 }
 
 #[derive(Default)]
@@ -207,12 +219,31 @@ pub struct Hist {
   pub notes: Vec<NoteEv>,
   pub pol: Vec<PolEv>,
   pub fin: Option<Final>,
+  /// set when the drain audit begins: its removals are not part of the judged history
+  pub audit_started: bool,
 }
 
 thread_local! {
   static HIST: RefCell<Hist> = RefCell::new(Hist::default());
   static NEXT_ID: Cell<u32> = const { Cell::new(1) };
   static CUR: RefCell<Option<Arc<CacheSc>>> = const { RefCell::new(None) };
+}
+
+fn with_hist<R>(f: impl FnOnce(&Hist) -> R) -> R {
+  HIST.with(|h| f(&h.borrow()))
+}
+
+fn reset_hist() {
+  HIST.with(|h| *h.borrow_mut() = Hist::default());
+  NEXT_ID.with(|n| n.set(1));
+}
+
+fn take_hist() -> Hist {
+  HIST.with(|h| std::mem::take(&mut *h.borrow_mut()))
+}
+
+fn set_current(sc: Option<Arc<CacheSc>>) {
+  CUR.with(|c| *c.borrow_mut() = sc);
 }
 
 fn fresh_id() -> u32 {
@@ -294,7 +325,12 @@ impl EvictionListener<u8, Val> for Listener {
     }
     let at = next_seq();
     let now_ns = fibre_verif_rt::time::now_ns();
-    HIST.with(|h| h.borrow_mut().notes.push(NoteEv { key, id: value.id, ctr: value.ctr, reason, at, now_ns }));
+    HIST.with(|h| {
+      let mut h = h.borrow_mut();
+      if !h.audit_started {
+        h.notes.push(NoteEv { key, id: value.id, ctr: value.ctr, reason, at, now_ns });
+      }
+    });
   }
 }
 
@@ -319,6 +355,10 @@ fn load_sync(key: u8, yields: u8, cost: u64) -> (Val, u64) {
 }
 
 pub fn build_cache(sc: &CacheSc) -> SCache {
+  make_builder(sc).build().expect("cache build")
+}
+
+pub fn make_builder(sc: &CacheSc) -> CacheBuilder<u8, Val, DetState> {
   let mut b: CacheBuilder<u8, Val, DetState> = CacheBuilder::new().hasher(DetState).shards(sc.shards);
   b = match sc.capacity {
     Some(c) => b.capacity(c),
@@ -374,7 +414,7 @@ pub fn build_cache(sc: &CacheSc) -> SCache {
     .maintenance_on_introspection(sc.introspection_maintenance)
     .timer_wheel_size(sc.timer_wheel_size.max(1))
     .timer_tick_duration(Duration::from_nanos(sc.timer_tick_ns.max(1)));
-  b.build().expect("cache build")
+  b
 }
 
 fn val_res(v: Option<Arc<Val>>) -> Res {
@@ -514,10 +554,26 @@ fn run_client(idx: usize, cl: &Client, cache: &SCache, acache: &ACache) {
         v.sort();
         Res::Many(v)
       }
+      COp::IterStep { batch, after, ns } => {
+        let mut out: Vec<(u8, u32, u32)> = vec![];
+        for (k, val) in cache.iter_with_batch_size((*batch).max(1) as usize) {
+          out.push((k, val.id, val.ctr));
+          if out.len() == *after as usize {
+            fibre_verif_rt::time::advance_ns(*ns);
+            ctx::fault_fired(FaultKind::ClockJump);
+          }
+        }
+        out.sort();
+        Res::Many(out)
+      }
       COp::IterSnapshot => {
         let mut v: Vec<(u8, u32, u32)> = cache.iter_snapshot().map(|(k, val)| (k, val.id, val.ctr)).collect();
         v.sort();
         Res::Many(v)
+      }
+      COp::Snapshot => {
+        let snap = if a { drive(acache.to_snapshot(), Plan::NONE).unwrap() } else { cache.to_snapshot() };
+        Res::Snap(snapshot_entries(&snap))
       }
       COp::RunMaintenance => {
         if a {
@@ -543,6 +599,27 @@ fn run_client(idx: usize, cl: &Client, cache: &SCache, acache: &ACache) {
   }
 }
 
+/// The entries of a snapshot, read from its serialised form (the fields are crate-private).
+pub fn snapshot_entries(snap: &fibre_cache::snapshot::CacheSnapshot<u8, Val>) -> Vec<(u8, u32, u32, u64, Option<u64>)> {
+  let v = serde_json::to_value(snap).expect("snapshot serialises");
+  let mut out = vec![];
+  for e in v["entries"].as_array().cloned().unwrap_or_default() {
+    let ttl = match &e["ttl_remaining"] {
+      Value::Null => None,
+      d => Some(d["secs"].as_u64().unwrap_or(0) * 1_000_000_000 + d["nanos"].as_u64().unwrap_or(0)),
+    };
+    out.push((
+      e["key"].as_u64().unwrap_or(255) as u8,
+      e["value"]["id"].as_u64().unwrap_or(0) as u32,
+      e["value"]["ctr"].as_u64().unwrap_or(0) as u32,
+      e["cost"].as_u64().unwrap_or(u64::MAX),
+      ttl,
+    ));
+  }
+  out.sort();
+  out
+}
+
 fn residents(cache: &SCache) -> Vec<(u8, u32, u32, u64)> {
   let mut v: Vec<(u8, u32, u32, u64)> = cache.iter_snapshot().map(|(k, val)| (k, val.id, val.ctr, val.cost)).collect();
   v.sort();
@@ -564,6 +641,14 @@ pub fn cache_main() {
   for j in joins {
     j.join().unwrap();
   }
+  settle_and_audit(&cache, &sc, KEYS as u8);
+  drop(acache);
+  drop(cache);
+}
+
+/// Quiescence: drive maintenance to a fixpoint, let the notifier drain, record `Final`, then
+/// run the drain audit.
+pub fn settle_and_audit(cache: &SCache, sc: &CacheSc, keys: u8) {
   // quiescence: drive maintenance to a fixpoint (bounded)
   // Settled = two consecutive passes leave residents and current_cost unchanged AND the policies
   // did nothing effective in the last pass (no admission, no eviction that named a victim): a
@@ -616,9 +701,22 @@ pub fn cache_main() {
     }
   }
   let (res, cost) = last.unwrap_or_default();
-  HIST.with(|h| h.borrow_mut().fin = Some(Final { residents: res, current_cost: cost, maintenance_passes: passes, settled, now_ns: fibre_verif_rt::time::now_ns() }));
-  drop(acache);
-  drop(cache);
+  // Drain audit: an entry can be resident without being visible to iteration (expired, not yet
+  // collected), so "current_cost equals the cost of what is resident" is decided by taking
+  // everything out: each removal must subtract what it removed and the counter must end at 0.
+  HIST.with(|h| h.borrow_mut().audit_started = true);
+  let mut audit = vec![];
+  for k in 0..keys {
+    let c0 = cache.metrics().current_cost;
+    let removed = cache.remove(&k).map(|v| v.id);
+    let c1 = cache.metrics().current_cost;
+    audit.push((k, removed, c0, c1));
+  }
+  let audit_left = residents(cache);
+  if let Some(last) = audit.last_mut() {
+    last.3 = cache.metrics().current_cost;
+  }
+  HIST.with(|h| h.borrow_mut().fin = Some(Final { residents: res, current_cost: cost, maintenance_passes: passes, settled, now_ns: fibre_verif_rt::time::now_ns(), audit, audit_left }));
 }
 
 /// What a lane emphasises.
@@ -790,6 +888,8 @@ impl Family for CacheFamily {
         Res::Many(_) => "many",
         Res::Unit => "unit",
         Res::Metrics { .. } => "metrics",
+        Res::Snap(v) if v.is_empty() => "snap-empty",
+        Res::Snap(_) => "snap",
       };
       states.push(hash_str(&format!("{:?}|{}|{}|{}|{}", sc.policy, sc.shards, kind, r, sc.clients[e.client as usize].is_async)));
     }
